@@ -173,6 +173,7 @@ func (c *Handle) send(msgType MessageType, b []byte) error {
 	pkt, err := c.ss.sealPacketLocked(msgType, b, c.ss.writeKey)
 	remoteAddr := c.ss.remoteAddr
 	c.ss.m.Unlock()
+	verifYield("Handle.send.sealed")
 	if err != nil {
 		go c.Close()
 		return err
